@@ -40,6 +40,7 @@ type Harness struct {
 	Mode     string            `json:"mode"`     // bv | int
 	BigW     int               `json:"bigw"`
 	LazyBig  bool              `json:"lazy_big_bytes,omitempty"`
+	AbsHex   bool              `json:"abs_hex,omitempty"`
 	MaxSteps int64             `json:"max_steps,omitempty"`
 	Unwind   int               `json:"unwind"`
 	Cuts     []string          `json:"cuts"`
@@ -163,7 +164,7 @@ func (h *Harness) config() symex.Config {
 	for _, c := range h.Cuts {
 		cuts[c] = true
 	}
-	return symex.Config{Mode: h.Mode, BigW: h.BigW, Unwind: h.Unwind, Cuts: cuts, Redirect: h.Redirect, LazyBigBytes: h.LazyBig, MaxSteps: h.MaxSteps}
+	return symex.Config{Mode: h.Mode, BigW: h.BigW, Unwind: h.Unwind, Cuts: cuts, Redirect: h.Redirect, LazyBigBytes: h.LazyBig, MaxSteps: h.MaxSteps, AbsHex: h.AbsHex}
 }
 
 func main() {
